@@ -1,6 +1,6 @@
-(** C19, part 4: concrete repositories - non-vacuity of the hypotheses, one
-    witness inside each known-finding class, and the two repaired classes as
-    positive examples plus a historical note about the code before the repair
+(** C19, part 4: concrete repositories - non-vacuity of the hypotheses, and the
+    repaired classes (38fe584, 4564259, 01aa490 + 3802aa0, 5a727de) as positive
+    examples, each with a historical note about the code before the repair
     (all by evaluation). *)
 From Rocfl Require Import Base.Bytes Generated.Consts Model.Listing Model.KnownC19
   Proofs.BytesFacts Proofs.ListingFacts Proofs.ListingWalkFacts Proofs.ListingGetFacts Proofs.ListingHandle.
@@ -38,7 +38,7 @@ Proof.
 Qed.
 
 Lemma w_good_facts :
-  names_unique w_good = true /\ c19_id_needs_escape w_good = false /\
+  names_unique w_good = true /\
   committed_ids w_good = [b "one"; b "two*[x]"] /\
   list_objects lit_match w_good None = [IOk [b "a"; b "b"] (b "one"); IOk [b "a"; b "c"] (b "two*[x]")] /\
   list_objects lit_match w_good (Some (b "two*[x]")) = [IOk [b "a"; b "c"] (b "two*[x]")] /\
@@ -51,10 +51,10 @@ Proof. repeat split; try (vm_compute; reflexivity). left. reflexivity. Qed.
 (** the staging root of that repository, taken as a repository of its own *)
 Definition w_staging : tree := Dir [(b "abc", Dir (w_obj false (b "staged-only")))].
 
-Lemma w_staging_wf : WellFormedRepo w_staging /\ c19_id_needs_escape w_staging = false /\
+Lemma w_staging_wf : WellFormedRepo w_staging /\
   list_staged_objects lit_match w_staging None = [IOk [b "abc"] (b "staged-only")].
 Proof.
-  split; [|split; vm_compute; reflexivity]. split.
+  split; [|vm_compute; reflexivity]. split.
   - change (spec_roots w_staging) with [([b "abc"], w_obj false (b "staged-only"))].
     constructor; [wf_obj false (b "staged-only")| constructor].
   - change (committed_ids w_staging) with [b "staged-only"]. constructor; [intros []| constructor].
@@ -78,7 +78,6 @@ Proof.
 Qed.
 
 Lemma w_ext_facts :
-  c19_id_needs_escape w_ext = false /\
   committed_ids w_ext = [b "extensions"] /\
   list_objects lit_match w_ext None = [IOk w_ext_path (b "extensions")] /\
   list_objects lit_match w_ext (Some (b "extensions")) = [IOk w_ext_path (b "extensions")] /\
@@ -92,34 +91,78 @@ Proof. repeat split; vm_compute; reflexivity. Qed.
 Lemma w_ext_before_fix : walk_before_fix w_ext = [] /\ walk w_ext = [(w_ext_path, w_obj false (b "extensions"))].
 Proof. split; vm_compute; reflexivity. Qed.
 
-(** ** Known finding id-needs-json-escape: no layout, id = id QUOTE q *)
+(** ** Repaired (5a727de, was known finding id-needs-json-escape): no layout, ids
+    id QUOTE q  and  q QUOTE BACKSLASH TAB 0x01 LF (pretty printed) next to a plain one;
+    id BACKSLASH is the text the old pre-filter cut out of the first id - never committed *)
 Definition w_idq : bytes := bs [105; 100; 34; 113].      (* id QUOTE q *)
 Definition w_idb : bytes := bs [105; 100; 92].           (* id\  *)
+Definition w_idc : bytes := bs [113; 34; 92; 9; 1; 10].  (* q QUOTE BACKSLASH TAB 0x01 LF *)
 Definition w_esc : tree :=
   Dir [(b "0=ocfl_1.1", File (b "ocfl_1.1"));
-       (b "objs", Dir [(b "x", Dir (w_obj false w_idq)); (b "y", Dir (w_obj true (b "plain")))])].
+       (b "objs", Dir [(b "x", Dir (w_obj false w_idq)); (b "y", Dir (w_obj true (b "plain")));
+                       (b "z", Dir (w_obj true w_idc))])].
 
 Lemma w_esc_wf : WellFormedRepo w_esc.
 Proof.
   split.
   - change (spec_roots w_esc) with
-      [([b "objs"; b "x"], w_obj false w_idq); ([b "objs"; b "y"], w_obj true (b "plain"))].
-    constructor; [wf_obj false w_idq|]. constructor; [wf_obj true (b "plain")| constructor].
-  - change (committed_ids w_esc) with [w_idq; b "plain"].
+      [([b "objs"; b "x"], w_obj false w_idq); ([b "objs"; b "y"], w_obj true (b "plain"));
+       ([b "objs"; b "z"], w_obj true w_idc)].
+    constructor; [wf_obj false w_idq|]. constructor; [wf_obj true (b "plain")|].
+    constructor; [wf_obj true w_idc| constructor].
+  - change (committed_ids w_esc) with [w_idq; b "plain"; w_idc].
+    constructor; [intros [H|[H|[]]]; vm_compute in H; discriminate H|].
     constructor; [intros [H|[]]; vm_compute in H; discriminate H|].
     constructor; [intros []| constructor].
 Qed.
 
 Lemma w_esc_facts :
-  c19_id_needs_escape w_esc = true /\
-  listed_ids (list_objects lit_match w_esc None) = [w_idq; b "plain"] /\
+  names_unique w_esc = true /\
+  needs_escape w_idq = true /\ needs_escape w_idc = true /\
+  listed_ids (list_objects lit_match w_esc None) = [w_idq; b "plain"; w_idc] /\
+  extract_object_id (serialize_inventory false w_idq w_rest) = Some w_idq /\
+  extract_object_id (serialize_inventory true w_idc w_rest) = Some w_idc /\
+  scan_for_inventory w_esc w_idq = Found [b "objs"; b "x"] w_idq /\       (* committed: found *)
+  scan_for_inventory w_esc w_idc = Found [b "objs"; b "z"] w_idc /\
+  scan_for_inventory w_esc w_idb = NotFound /\                            (* never committed: not found *)
+  list_objects lit_match w_esc (Some w_idq) = [IOk [b "objs"; b "x"] w_idq] /\
+  list_objects lit_match w_esc (Some w_idb) = [] /\
+  (* the cache holds the true root, a second lookup through the same handle finds the object again *)
+  get_inventory None [] w_esc w_idq = (Found [b "objs"; b "x"] w_idq, [(w_idq, [b "objs"; b "x"])]) /\
+  fst (get_inventory None [(w_idq, [b "objs"; b "x"])] w_esc w_idq) = Found [b "objs"; b "x"] w_idq /\
+  get_inventory None [] w_esc w_idb = (NotFound, []) /\
+  purge_object None [(w_idq, [b "objs"; b "x"])] w_esc w_idq = (POk, remove_at w_esc [b "objs"; b "x"], []).
+Proof. repeat split; vm_compute; reflexivity. Qed.
+
+(** historical note: before 5a727de the pre-filter compared the escaped text cut at its first quote *)
+Lemma w_esc_before_fix :
   raw_capture w_idq = w_idb /\
-  scan_for_inventory w_esc w_idq = NotFound /\                       (* committed, not found *)
-  scan_for_inventory w_esc w_idb = Found [b "objs"; b "x"] w_idq /\  (* never committed, answers with another object *)
-  list_objects lit_match w_esc (Some w_idq) = [] /\
-  (* the wrong match is cached: the next lookup of the cut text through the same handle *)
-  snd (get_inventory None [] w_esc w_idb) = [(w_idb, [b "objs"; b "x"])] /\
-  fst (get_inventory None [(w_idb, [b "objs"; b "x"])] w_esc w_idb) = Corrupt.
+  extract_object_id_before_fix (serialize_inventory false w_idq w_rest) = Some w_idb /\
+  extract_object_id_before_fix (serialize_inventory true w_idc w_rest) = Some (b "q\").
+Proof. repeat split; vm_compute; reflexivity. Qed.
+
+(** ** Hand-written inventories: what the pre-filter reads and what the full parse reads.
+    A string serde_json cannot decode (raw TAB, unknown escape, lone surrogate) is
+    compared as the raw text between the quotes (fs.rs:1069) and fails the full parse. *)
+Definition w_tail : bytes := b ",""type"":""x""}".
+Lemma w_prefilter_examples :
+  (* escaped quotes do not end the string; the id member spelled inside it is no second id *)
+  extract_object_id (b "{""id"":""a\""id\"":\""zz""" ++ w_tail) = Some (b "a""id"":""zz") /\
+  parse_inventory_id (b "{""id"":""a\""id\"":\""zz""" ++ w_tail) = Some (b "a""id"":""zz") /\
+  (* \u escapes, a surrogate pair *)
+  extract_object_id (b "{ ""id"" : ""c6\u0041\ud83d\ude00""" ++ w_tail) = Some (b "c6A" ++ bs [240; 159; 152; 128]) /\
+  parse_inventory_id (b "{ ""id"" : ""c6\u0041\ud83d\ude00""" ++ w_tail) = Some (b "c6A" ++ bs [240; 159; 152; 128]) /\
+  (* fallback: raw TAB / unknown escape / lone surrogate / short \u escape *)
+  extract_object_id (b "{""id"":""a" ++ bs [9] ++ b "b""" ++ w_tail) = Some (b "a" ++ bs [9] ++ b "b") /\
+  parse_inventory_id (b "{""id"":""a" ++ bs [9] ++ b "b""" ++ w_tail) = None /\
+  extract_object_id (b "{""id"":""x\qy""" ++ w_tail) = Some (b "x\qy") /\
+  parse_inventory_id (b "{""id"":""x\qy""" ++ w_tail) = None /\
+  extract_object_id (b "{""id"":""\ud800x""" ++ w_tail) = Some (b "\ud800x") /\
+  extract_object_id (b "{""id"":""\u00""" ++ w_tail) = Some (b "\u00") /\
+  (* no match in the first candidate (empty string; string not closed on its line): the scan goes on *)
+  extract_object_id (b "{""id"":"""",""x"":{""id"":""in""}}") = Some (b "in") /\
+  extract_object_id (b "{""id"":""a" ++ bs [10] ++ b "b"",""id"":""second""}") = Some (b "second") /\
+  extract_object_id (b "{""id"":""a\" ++ bs [10] ++ b """}") = None.
 Proof. repeat split; vm_compute; reflexivity. Qed.
 
 (** ** Repaired (01aa490 + 3802aa0, was known finding layout-path-occupied): layouts
@@ -162,9 +205,9 @@ Definition w_stale0 : tree := w_reuse (b "A1").
 Definition w_stale : tree := w_reuse (b "B1").
 Definition w_cache : cache := [(b "A1", [b "reuse"; b "x"])].
 
-Lemma w_reuse_good i : i <> [] -> needs_escape i = false -> Good (w_reuse i).
+Lemma w_reuse_good i : i <> [] -> Good (w_reuse i).
 Proof.
-  intros Hi He. split; [|split].
+  intros Hi. split.
   - split.
     + change (spec_roots (w_reuse i)) with [([b "reuse"; b "x"], w_obj false i)].
       constructor; [|constructor]. exists i. split; [exact Hi|].
@@ -175,12 +218,6 @@ Proof.
       unfold committed_ids. change (spec_roots (w_reuse i)) with [([b "reuse"; b "x"], w_obj false i)].
       cbn [flat_map]. unfold root_id. cbn [snd]. rewrite E. cbn [app]. constructor; [intros []| constructor].
   - reflexivity.
-  - assert (E : parse_inventory (w_obj false i) = Ok i).
-    { apply (wf_root_parse i ([], w_obj false i)). split; [exact Hi|].
-      split; [exists false, w_rest; reflexivity| reflexivity]. }
-    unfold c19_id_needs_escape, committed_ids.
-    change (spec_roots (w_reuse i)) with [([b "reuse"; b "x"], w_obj false i)].
-    cbn [flat_map]. unfold root_id. cbn [snd]. rewrite E. cbn [app existsb]. now rewrite He.
 Qed.
 
 Lemma w_stale_history :
@@ -193,7 +230,7 @@ Lemma w_stale_history :
   fst (get_inventory None [] w_stale (b "A1")) = NotFound /\
   fst (get_inventory None [] w_stale (b "B1")) = Found [b "reuse"; b "x"] (b "B1").
 Proof.
-  assert (G0 : Good w_stale0) by (apply w_reuse_good; [discriminate| reflexivity]).
+  assert (G0 : Good w_stale0) by (apply w_reuse_good; discriminate).
   split; [vm_compute; reflexivity|]. split; [vm_compute; reflexivity|]. split; [vm_compute; reflexivity|].
   split; [|split; vm_compute; reflexivity].
   pose proof (R_get None w_stale0 [] (b "A1") (R_open None w_stale0) G0) as R1.
